@@ -17,7 +17,7 @@ GNext ==
           Open(s, p, w) /\ Rec([e |-> "open", s |-> s, u |-> p.u, inc |-> p.i, w |-> w])
     \/ \E s \in Streams : Close(s) /\ Rec([e |-> "close", s |-> s])
     \/ \E s \in Streams, p \in PrioSet :
-          Adjust(s, p) /\ Rec([e |-> "adjust", s |-> s, u |-> p.u, inc |-> p.i, dep |-> (s + p.u) % 4])
+          Adjust(s, p) /\ Rec([e |-> "adjust", s |-> s, u |-> p.u, inc |-> p.i, dep |-> (s + p.u) % 4, wt |-> ((s * 37 + p.u * 11 + p.i) % 3) * 100])
     \/ /\ nextId <= MaxFrames
        /\ \/ /\ Push([id |-> nextId, sid |-> 0, kind |-> "c", size |-> 0, es |-> FALSE, off |-> 0, fin |-> TRUE])
              /\ Rec([e |-> "push", kind |-> "c", s |-> 1, size |-> 0, es |-> FALSE])
